@@ -189,7 +189,13 @@ def c10_oracle(payload):
             msk = gain > -150
             if msk.any() and _mx(np.abs(g4[msk] - gain[msk])) > 1e-6:
                 bad.append('rows 360 degrees apart in azimuth differ by %.3g dB' % _mx(np.abs(g4[msk] - gain[msk])))
-            r['features'] = dict(grounded_non_vertical=bool(any(p.ground.any() and (abs(p.segs[0].dirvec[0]) > 1e-9 or abs(p.segs[0].dirvec[1]) > 1e-9) for p in m.pulses)))
+            def _asym(p):
+                a, b = p.segs[0], p.segs[1]
+                if p.ground.any():
+                    return abs(a.dirvec[0]) > 1e-9 or abs(a.dirvec[1]) > 1e-9
+                if np.linalg.norm(np.cross(a.dirvec, b.dirvec)) > math.sin(math.radians(5.0)): return True
+                return max(a.seg_len, b.seg_len) > 1.2 * min(a.seg_len, b.seg_len)
+            r['features'] = dict(asymmetric_pulse=bool(any(_asym(p) for p in m.pulses)))
             r['bad'] = bad
         except Exception as e:
             r['error'] = exc_info(e)
@@ -393,7 +399,9 @@ def c01_oracle(payload):
                     p_load += 0.5 * l.impedance(m.f, p).real * abs(m.current[p.idx]) ** 2
             imb = (p_rad + p_load - p_src) / p_app
             r['imbalance'] = imb; r['real_ground'] = real
-            r['features'] = dict(exact_kernel_applied_off_axis=_misapplied_exact(m))
+            rstep = any(max(s.geobj.r for s in p.segs) >= 2 * min(s.geobj.r for s in p.segs) for p in m.pulses if p.geo[0] is not p.geo[1])
+            hstep = bool(m.media) and len(m.media) > 1 and any(abs(g.height) > 0 for g in m.media)
+            r['features'] = dict(exact_kernel_applied_off_axis=_misapplied_exact(m), radius_step_at_junction=bool(rstep), media_height_step=bool(hstep))
             bad = []
             if abs(m.power - p_src) > 1e-12 * p_app:
                 bad.append('power used for normalisation %r is not sum Re(V I*)/2 = %r' % (m.power, p_src))
